@@ -265,7 +265,7 @@ def _observations(ctx):
     if ctx.replay or "harness" not in ctx.harness_bin:
         return
     from concurrent.futures import ThreadPoolExecutor
-    lines = ctx.gen("probe", 1, 5)
+    lines = ctx.gen("probe", 1, 4)
     with ThreadPoolExecutor(max_workers=5) as ex:
         outs = [(o or ["no answer"])[0] for o in ex.map(lambda l: ctx.run_impl("probe", [l], timeout=120), lines)]
     ctx.extra["observations"] = [o[4:] if o.startswith("obs ") else o for o in outs]
